@@ -139,7 +139,7 @@ PHASES = {
 
 # per-step oracles (names in harness.oracles.PER_STEP) and per-run oracles
 STEP_ORACLES = {pid: [pid] for pid in ("C03", "C04", "C05", "C06", "C07", "C14")}
-STEP_ORACLES.update({"C04": ["C04", "C08"], "C02": ["C02"], "C20": ["C20"], "C08": ["C08"], "C09": ["C09", "C10"], "C10": ["C10"], "C11": ["C11", "C08"]})
+STEP_ORACLES.update({"C04": ["C04", "C08"], "C02": ["C02"], "C20": ["C20"], "C08": ["C08"], "C09": ["C09", "C10", "C07"], "C10": ["C10", "C07"], "C11": ["C11", "C08"]})
 
 # records a property is about: what the simulation reports for them must be the model's value at each step
 REPORTED = {"C03": ["production_realised", "production_capacity"], "C04": ["final_demand_unmet", "rebuild_prod"],
